@@ -11,7 +11,7 @@ RULE = ('class = (variant, |M| mod blocksize, floor(|M|/blocksize) in 0..4, L mo
 ASSUMPTIONS = ['hashlib.blake2b/blake2s', 'own BLAKE reference (8 submission vectors)', 'own BLAKE2 reference (self-tested against hashlib)']
 ANCHORS = [('blake.py', 'Blake.update'), ('blake.py', 'Blake.initstate'), ('padding.py', 'Blakepadding.lastblock'), ('blake.py', 'Blake2.paramblock'),
            ('blake.py', 'Blake2.treeinit'), ('blake.py', 'Blake2.iterblocks'), ('blake.py', 'Blake2.update'), ('blake.py', 'Blake2.initstate')]
-REQUIRED = ['blake==reference', 'blake2==hashlib', 'digest-length', 'H2:counter-trace', 'H2:final-flag-trace', 'counter-preset:blake',
+REQUIRED = ['siblings:digest==reference', 'blake==reference', 'blake2==hashlib', 'digest-length', 'H2:counter-trace', 'H2:final-flag-trace', 'counter-preset:blake',
             'counter-preset:blake2']
 NSHARDS = 14
 SAN = {'quick': (2, 60), 'thorough': (2, 60)}
@@ -43,6 +43,8 @@ def cases(tier, rng):
             for tail in (0, 1, B - w // 4 - 1, B - 1):
                 for nblk in (1, 2):
                     yield {'k': 'preset-blake', 'size': size, 'preset': (1 << top) + kb * 8 * B, 'nblk': nblk, 'tail': tail}
+    for j in range(20 if tier == 'quick' else 150):
+        yield {'k': 'siblings', 'j': j}
     for size in (256, 512):
         B = 128 if size == 512 else 64
         omax = B // 2
@@ -164,6 +166,28 @@ def run_blake2(case, ctx, rng):
         ctx.eq('H2:final-flag-trace', [1 if e[3] else 0 for e in ev], [0] * (nb - 1) + [1], **det)
         if ev:
             ctx.eq('H2:final-flag-value', ev[-1][3], (1 << (64 if big else 32)) - 1, **det)
+
+def run_siblings(case, ctx, rng):
+    from vmon.core import siblings
+    import crysp.blake as BK
+    ctx.cls(('siblings', case['j'] % 5))
+    specs = []
+    for size in rng.sample([224, 256, 384, 512], 2):
+        M = rng.randbytes(rng.choice([0, 1, 55, 64, 111, 130])); salt = rng.getrandbits(64)
+        specs.append(('Blake(%d)' % size, (lambda size=size: BK.Blake(size)), [('h(M)', (lambda o, M=M: o(M)), rblake.blake(size, M)), ('h(M,salt)', (lambda o, M=M, s=salt: o(M, s)), rblake.blake(size, M, salt))]))
+    size = rng.choice([224, 256, 384, 512]); M = rng.randbytes(70)
+    specs.append(('blake%d singleton' % size, (lambda size=size: getattr(BK, 'blake%d' % size)), [('h(M)', (lambda o, M=M: o(M)), rblake.blake(size, M))]))
+    for big in rng.sample([True, False, True], 2):
+        H = hashlib.blake2b if big else hashlib.blake2s
+        l = 16 if big else 8; om = 64 if big else 32
+        M = rng.randbytes(rng.choice([0, 3, 64, 129, 300])); ol = rng.randrange(1, om + 1); sl = rng.randbytes(l)
+        specs.append(('Blake2(%d)' % (512 if big else 256), (lambda big=big: BK.Blake2(512 if big else 256)),
+                      [('h(M)', (lambda o, M=M: o(M)), H(M).digest()), ('h(M,outlen,salt)', (lambda o, M=M, ol=ol, sl=sl: o(M, outlen=ol, salt=sl)), H(M, digest_size=ol, salt=sl).digest()),
+                       ('h(M) again', (lambda o, M=M: o(M)), H(M).digest())]))
+    M = rng.randbytes(200)
+    specs.append(('blake2s singleton', (lambda: BK.blake2s), [('h(M)', (lambda o, M=M: o(M)), hashlib.blake2s(M).digest()), ('h(M,outlen=5)', (lambda o, M=M: o(M, outlen=5)), hashlib.blake2s(M, digest_size=5).digest())]))
+    specs.append(('blake2b singleton', (lambda: BK.blake2b), [('h(M)', (lambda o, M=M: o(M)), hashlib.blake2b(M).digest())]))
+    siblings(ctx, rng, 'siblings:digest==reference', specs, late=specs.pop(0))
 
 def run_preset_blake(case, ctx, rng):
     import crysp.blake as BK
